@@ -243,5 +243,45 @@ checks["C19"] = dict(
     level_text="Bounded symbolic execution of the real migrate.CopyLogs/CopyStable; batchBytes, first index and the cancellation point are solver variables",
     level_note="in-memory stores; bounded length")
 
+checks["C09"] = dict(
+    runs=dict(
+        quick=[H("HarnessFormatWrite", {"maxplen": 9, "limit": 160}, pkg="harness/hseg", shards=8, depth=4),
+               H("HarnessFormatRead", {"maxplen": 3}, pkg="harness/hseg", shards=4, depth=4),
+               H("HarnessGolden", {}, pkg="harness/hseg")],
+        thorough=[H("HarnessFormatWrite", {"maxplen": 9, "limit": 160, "maxbatches": 3}, pkg="harness/hseg", shards=28, depth=5, timeout="30m"),
+                  H("HarnessFormatWrite", {"maxplen": 9, "limit": 4096, "maxbatches": 2}, pkg="harness/hseg", shards=8, depth=4),
+                  H("HarnessFormatRead", {"maxplen": 9}, pkg="harness/hseg", shards=28, depth=5, timeout="30m"),
+                  H("HarnessGolden", {}, pkg="harness/hseg")]),
+    required_reach=["format-write-checked", "force-sealed", "sealed-by-size", "format-read-checked", "read-sealed", "read-tail", "golden-checked"],
+    bounds=dict(quick="1..2 batches of 1..2 entries, payload lengths 0..9 (every padding residue) with symbolic bytes, BaseIndex/SegmentID/Codec 64-bit symbolic, sealing by size (160-byte limit) or ForceSeal or not at all; reader side: reference images of 1..2 batches, payloads 0..3 bytes, sealed and unsealed; golden directory written by the pinned version",
+                thorough="up to 3 batches; reader payloads 0..9 bytes"),
+    assumptions=["ideal CRC (the commit CRC is compared as the checksum of the same byte sequence, collision-free); castagnoliTable is created by crc32.MakeTable(crc32.Castagnoli) (checked concretely by the stub)",
+                 "README ambiguity: the first commit's CRC covers the file header (README says 'all bytes appended since the last fsync' and also 'just after the file header'; the pinned behaviour and golden files include the header)"],
+    outside=["BoltDB file layout of wal-meta.db (bbolt is not encodable); the JSON metadata record is checked by the golden fixture only", "symbolic file names beyond the fixed-width pattern comparison"],
+    level_text="Differential symbolic execution of the real segment writer/reader against an encoder written from README.md only: file images are compared byte for byte as one solver term per path",
+    level_note="ideal CRC; bounded batch shapes")
+
+checks["C11"] = dict(
+    runs=dict(
+        quick=[H("HarnessDecode", {"maxlen": 9}, pkg="harness/hcodec", shards=8, depth=4),
+               H("HarnessDecodeMutated", {}, pkg="harness/hcodec", shards=14, depth=4),
+               H("HarnessGarbageTail", {"maxchunks": 7}, pkg="harness/hseg", shards=4, depth=4),
+               H("HarnessGarbageSealed", {"maxchunks": 5}, pkg="harness/hseg", shards=8, depth=4),
+               H("HarnessDump", {"maxchunks": 7}, pkg="harness/hseg", shards=2, depth=3),
+               H("HarnessOpenDamaged", {}, pkg="harness/hseg")],
+        thorough=[H("HarnessDecode", {"maxlen": 12}, pkg="harness/hcodec", shards=28, depth=5, timeout="30m"),
+                  H("HarnessDecodeMutated", {}, pkg="harness/hcodec", shards=14, depth=4),
+                  H("HarnessGarbageTail", {"maxchunks": 10}, pkg="harness/hseg", shards=28, depth=5, timeout="30m"),
+                  H("HarnessGarbageSealed", {"maxchunks": 8}, pkg="harness/hseg", shards=28, depth=5, timeout="30m"),
+                  H("HarnessDump", {"maxchunks": 10}, pkg="harness/hseg", shards=8, depth=4),
+                  H("HarnessOpenDamaged", {}, pkg="harness/hseg")]),
+    required_reach=["decoded-ok", "decode-error", "mutated-decoded", "garbage-tail-checked", "garbage-sealed-checked", "dump-checked", "open-failed", "sealed-missing", "sealed-truncated", "sealed-foreign-header"],
+    bounds=dict(quick="Decode of every buffer of <=9 symbolic bytes and of a valid encoding with one symbolic byte overwritten / truncated anywhere; tail and sealed segment files of <=56 / <=40 arbitrary (symbolic) bytes under arbitrary SegmentInfo (MinIndex, MaxIndex, IndexStart, SizeLimit symbolic), DumpSegment over <=56 arbitrary bytes; wal.Open with a sealed segment missing / truncated below its header / carrying another segment's header / one header byte changed / arbitrary metadata fields / one I/O fault, asserting error + released handles",
+                thorough="Decode buffers <=12 bytes, files <=80 / <=64 bytes"),
+    assumptions=COMMON_ASSUME + ["panics are the engine's implicit Go checks (index, slice bounds, nil dereference, division) made feasible by the solver; hangs are bounded by the per-path instruction budget (20M instructions: an unwinding failure is reported, not passed)"],
+    outside=["larger arbitrary files", "allocation sizes read from a frame header with more than 64 feasible values end the path as cut (the code bounds them by MaxEntrySize before allocating; counted in evidence)", "arbitrary bytes in wal-meta.db itself (bbolt)"],
+    level_text="Bounded symbolic execution of the real decoder, tail recovery, sealed reader, dump utility and Open over arbitrary (symbolic) file contents and metadata; every Go runtime check is a solver query",
+    level_note="bounded file sizes; ideal CRC")
+
 json.dump(checks, open(os.path.join(ROOT, "checks.json"), "w"), indent=1)
 print("checks:", sorted(checks))
